@@ -248,6 +248,39 @@ def run(pid, lane, sample, rseed, scale, jobs, only_ops=None):
     subprocess.run(["git", "-C", wt, "checkout", "-q", "--", "."])
 
 
+def rerun(pid, lane, scale, jobs):
+    """Run the survivors of the log again (e.g. at full scale); outcomes are appended to Cxx-rerun.jsonl."""
+    wt = ensure_lane(lane)
+    logp = os.path.join(OUT, "%s.jsonl" % pid)
+    env = dict(os.environ, VERIF_REPO=wt, VERIF_EVIDENCE_DIR="/var/tmp/automut/evidence-%s" % lane, VERIF_SCALE=str(scale), VERIF_JOBS=str(jobs))
+    seen = set()
+    for l in open(logp):
+        r = json.loads(l)
+        key = (r["file"], r["a"], r["e"], r["new"])
+        if r["rc"] != 0 or key in seen:
+            continue
+        seen.add(key)
+        path = os.path.join(wt, r["file"])
+        data = open(path, "rb").read()
+        if data[r["a"]:r["e"]].decode() != r["old"]:
+            print("stale offsets:", r["id"]); continue
+        open(path, "wb").write(data[:r["a"]] + r["new"].encode() + data[r["e"]:])
+        try:
+            p = subprocess.run(["./check", pid, "--tier", "quick"], cwd="/verif", env=env, capture_output=True, text=True, timeout=3000)
+            rc, outp = p.returncode, p.stdout + p.stderr
+        except subprocess.TimeoutExpired:
+            rc, outp = 124, "timeout"
+        finally:
+            open(path, "wb").write(data)
+        first = ""
+        for ln in outp.splitlines():
+            if re.match(r"^  (stratum|probe)=", ln) or "INCONCLUSIVE" in ln:
+                first = ln.strip()[:200]; break
+        with open(os.path.join(OUT, "%s-rerun.jsonl" % pid), "a") as f:
+            f.write(json.dumps(dict(r, rc=rc, first=first, scale=scale)) + "\n")
+        print("%s rc=%d [%s -> %s] %s" % (r["id"], rc, r["old"][:30], r["new"][:30], first[:120]), flush=True)
+
+
 def survivors(pid):
     logp = os.path.join(OUT, "%s.jsonl" % pid)
     n = k = 0
@@ -262,7 +295,7 @@ def survivors(pid):
 
 if __name__ == "__main__":
     ap = argparse.ArgumentParser()
-    ap.add_argument("cmd", choices=["gen", "run", "survivors", "count"])
+    ap.add_argument("cmd", choices=["gen", "run", "survivors", "count", "rerun"])
     ap.add_argument("pid")
     ap.add_argument("--lane", default="0")
     ap.add_argument("--sample", type=int, default=40)
@@ -280,6 +313,8 @@ if __name__ == "__main__":
         for m in ms:
             ops[m["op"]] = ops.get(m["op"], 0) + 1
         print(a.pid, len(ms), ops)
+    elif a.cmd == "rerun":
+        rerun(a.pid, a.lane, a.scale, a.jobs)
     elif a.cmd == "run":
         run(a.pid, a.lane, a.sample, a.rseed, a.scale, a.jobs, set(a.ops.split(",")) if a.ops else None)
     else:
